@@ -339,6 +339,7 @@ class Oracle:
             if o['status'] != 'ok':
                 self.fail('raises', 'phase_for raised %s on a %s layer' % (o['status'], where))
                 return
+            pend = False
             if cur != par:
                 if self.kind == 'finite' and moved_since_set and real == 0:
                     # a parameter was changed on the running layer and the layer was evolved since: the finite layer
@@ -350,9 +351,16 @@ class Oracle:
                                   'differs from the screen of a freshly built layer with the same seed and the current parameters at that '
                                   'time (max dev %.3g)' % (clock, np.abs(ref - o['phase1']).max()))
                     self.cnt('read after a live parameter change vs fresh layer')
+                    continue
+                elif self.kind == 'infinite' and cur[2] == par[2]:
+                    # Cn^2 / L0 changed on the running infinite layer: the screen stays, later rows/columns use the new
+                    # values.  No fresh-layer reference exists, but the screen still moves rigidly, scales with 1/lambda,
+                    # and the twin layer (k^2 Cn^2 throughout, same changes) shows k times the phase.
+                    pend = True
+                    self.cnt('read with a live parameter change on the infinite layer (translation, 1/lambda, strength judged)')
                 else:
                     self.cnt('read with a parameter change pending (not judged)')
-                continue
+                    continue
             lam = float(op[1])
             s1 = o['phase1']
             scale = max(float(np.abs(s1).max()), 1e-300)
@@ -366,40 +374,41 @@ class Oracle:
                 if np.abs(tw - k * s1).max() > TOL * k * scale:
                     self.fail('strength', 'layer with %g x Cn^2 is not %g x the phase (max dev %.3g of %.3g)' % (
                         k * k, k, np.abs(tw - k * s1).max(), scale))
-            # --- replay: same realisation + same parameters + same sequence of times => the same screen, bit for bit;
-            #     the same with another Cn^2 => the screen times sqrt(Cn^2 ratio)
-            seqkey = tuple(seq) if self.kind == 'infinite' else (clock,)
-            if real == 0:
-                ref = self.fresh_screen(seq, par)
-                if not np.array_equal(ref, s1):
-                    nres = sum(1 for q in obs[:i] if q['op'][0] == 'reset')
-                    nset = sum(1 for q in obs[:i] if q['op'][0] in SET_OPS)
-                    self.fail('replay-after-setter' if nset else 'replay',
-                              'screen at t=%r after %d reset(s) and %d parameter change(s) differs from the screen of a freshly built '
-                              'layer with the same seed and the current parameters at that time (max dev %.3g of %.3g)' % (
-                                  clock, nres, nset, np.abs(ref - s1).max(), scale))
-                self.cnt('replay vs fresh layer')
-            key = (real, seqkey, par[1], par[2])
-            fresh_key = True
-            for (c0, scr) in seen.get(key, []):
-                fresh_key = False
-                if c0 == par[0]:
-                    if not np.array_equal(scr, s1):
-                        self.fail('replay', 'same realisation, same evolution times %r, different screen' % (seqkey[-3:],))
-                    self.cnt('replay vs earlier run')
-                    break
-                r = np.sqrt(par[0] / c0)
-                if np.abs(s1 - r * scr).max() > TOL * scale:
-                    self.fail('strength-setter', 'after Cn_squared was changed from %r to %r and reset(), the replayed screen at t=%r is not '
-                              'sqrt(ratio) = %.6g times the earlier one (max dev %.3g of %.3g)' % (c0, par[0], clock, r, np.abs(s1 - r * scr).max(), scale))
-                self.cnt('sqrt(Cn^2 new / Cn^2 old) vs earlier run')
-            else:
-                if fresh_key:
-                    for (r2, s2, l2, v2), lst in seen.items():
-                        if r2 != real and s2 == seqkey and l2 == par[1] and v2 == par[2] and any(
-                                c0 == par[0] and np.abs(scr - s1).max() < 1e-3 * scale for c0, scr in lst):
-                            self.fail('independent', 'reset(make_independent_realization=True) reproduced the previous realisation')
-                seen.setdefault(key, []).append((par[0], s1))
+            if not pend:
+                # --- replay: same realisation + same parameters + same sequence of times => the same screen, bit for bit;
+                #     the same with another Cn^2 => the screen times sqrt(Cn^2 ratio)
+                seqkey = tuple(seq) if self.kind == 'infinite' else (clock,)
+                if real == 0:
+                    ref = self.fresh_screen(seq, par)
+                    if not np.array_equal(ref, s1):
+                        nres = sum(1 for q in obs[:i] if q['op'][0] == 'reset')
+                        nset = sum(1 for q in obs[:i] if q['op'][0] in SET_OPS)
+                        self.fail('replay-after-setter' if nset else 'replay',
+                                  'screen at t=%r after %d reset(s) and %d parameter change(s) differs from the screen of a freshly built '
+                                  'layer with the same seed and the current parameters at that time (max dev %.3g of %.3g)' % (
+                                      clock, nres, nset, np.abs(ref - s1).max(), scale))
+                    self.cnt('replay vs fresh layer')
+                key = (real, seqkey, par[1], par[2])
+                fresh_key = True
+                for (c0, scr) in seen.get(key, []):
+                    fresh_key = False
+                    if c0 == par[0]:
+                        if not np.array_equal(scr, s1):
+                            self.fail('replay', 'same realisation, same evolution times %r, different screen' % (seqkey[-3:],))
+                        self.cnt('replay vs earlier run')
+                        break
+                    r = np.sqrt(par[0] / c0)
+                    if np.abs(s1 - r * scr).max() > TOL * scale:
+                        self.fail('strength-setter', 'after Cn_squared was changed from %r to %r and reset(), the replayed screen at t=%r is not '
+                                  'sqrt(ratio) = %.6g times the earlier one (max dev %.3g of %.3g)' % (c0, par[0], clock, r, np.abs(s1 - r * scr).max(), scale))
+                    self.cnt('sqrt(Cn^2 new / Cn^2 old) vs earlier run')
+                else:
+                    if fresh_key:
+                        for (r2, s2, l2, v2), lst in seen.items():
+                            if r2 != real and s2 == seqkey and l2 == par[1] and v2 == par[2] and any(
+                                    c0 == par[0] and np.abs(scr - s1).max() < 1e-3 * scale for c0, scr in lst):
+                                self.fail('independent', 'reset(make_independent_realization=True) reproduced the previous realisation')
+                    seen.setdefault(key, []).append((par[0], s1))
             # --- rigid translation with the wind
             cx, cy = vx * clock, vy * clock
             pairs = []
@@ -888,6 +897,22 @@ def decorate(rng, case, live=True):
             pos = int(rng.choice(resets)) if resets and rng.random() < 0.6 else int(rng.integers(0, len(ops) + 1))
             ops.insert(pos, ['cdraw', int(rng.integers(1, 6))])
             resets = [i for i, op in enumerate(ops) if op[0] == 'reset']
+    if case['kind'] == 'infinite' and live and rng.random() < 0.35:
+        # Cn^2 / outer scale changed on the *running* infinite layer (no reset): the screen stays, later rows/columns use the new values
+        ext = max(case['nx'] * case['dx'], case['ny'] * case['dy'])
+        for _ in range(int(rng.integers(1, 3))):
+            pos = int(rng.integers(0, len(ops) + 1))
+            kind_ = str(rng.choice(['setcn2', 'setcn2', 'setl0', 'setcn2m']))
+            if kind_ == 'setcn2':
+                new = [['setcn2', float(rng.integers(1, 64)) * 2.0 ** -44 * float(rng.choice([1.0, 4.0, 0.25]))]]
+            elif kind_ == 'setcn2m':
+                new = [['setcn2m', float(rng.integers(1, 64)) * 2.0 ** -42]]
+            else:
+                new = [['setl0', float(rng.choice([3.0, 6.0, 12.0, 20.0])) * ext / 4.0, str(rng.choice(['L0', 'outer_scale', 'multi']))]]
+            if rng.random() < 0.6:
+                new.append(['read', 1.0])
+            ops[pos:pos] = new
+        case['live'] = True
     if case['heap'] and case['kind'] == 'finite' and live and rng.random() < 0.5:
         ext = max(case['nx'] * case['dx'], case['ny'] * case['dy'])
         for _ in range(int(rng.integers(1, 4))):
@@ -1129,6 +1154,11 @@ DIRECTED = [
                                                 ['reset', False], ['evolve', 2.0], ['read', 1.0]]), heap=True, seedobj=True),
     dict(_layer('infinite', 5, 7, [0.0, -0.25], [['evolve', 2.0], ['read', 1.0], ['reset', False], ['evolve', 2.0], ['read', 1.0]]), heap=True, ar=True),
     _layer('infinite', 5, 6, [0.25, -0.25], [['evolve', 2.0], ['read', 1.0], ['reset', False, 'none'], ['read', 1.0], ['evolve', 2.0], ['read', 1.0]]),
+    # parameter changes on the running infinite layer
+    dict(_layer('infinite', 7, 5, [0.25, 0.0], [['evolve', 1.0], ['read', 1.0], ['setcn2', 2.0 ** -38], ['read', 1.0], ['evolve', 3.0], ['read', 1.0],
+                                                ['setl0', 4.0, 'outer_scale'], ['evolve', 4.0], ['read', 0.5], ['reset', False], ['evolve', 1.0], ['read', 1.0]], k=2.0), ar=True),
+    dict(_layer('infinite', 5, 6, [0.0, -0.25], [['setcn2', 2.0 ** -39], ['evolve', 2.0], ['read', 1.0], ['setcn2', 2.0 ** -40], ['setcn2', 2.0 ** -41], ['evolve', 3.0],
+                                                 ['read', 1.0], ['reset', True], ['evolve', 2.0], ['read', 1.0]], k=3.0), heap=True),
     dict(_layer('infinite', 6, 4, [0.25, 0.25], [['evolve', 1.0], ['read', 0.5], ['setcn2', 2.0 ** -38], ['reset', False], ['evolve', 1.0], ['read', 2.0]]), ar=True),
     dict(_layer('infinite', 4, 6, [-0.25, 0.0], [['evolve', 3.0], ['read', 1.0]], interp=True), ar=True),
     # the finite layer's lazy noise and cached screen: parameter changes on the running layer
@@ -1182,6 +1212,8 @@ def handle(ctx, case, batch):
             ctx.count('%s:seed is a Generator object' % case['kind'])
             ctx.count('%s:caller draws' % case['kind'], sum(1 for op in case['ops'] if op[0] == 'cdraw'))
         ctx.count('%s:parameter setters' % case['kind'], sum(1 for op in case['ops'] if op[0] in SET_OPS))
+        if case.get('live'):
+            ctx.count('%s:cases with Cn^2 / L0 changed on the running layer' % case['kind'])
         ctx.count('%s:pixels %s' % (case['kind'], 'square' if case['dx'] == case['dy'] else 'non-square (dx != dy)'))
         # accumulated displacement in grid extents, and consecutive reads that straddle a multiple of the extent
         mx, last, strad, on = 0.0, None, 0, 0
